@@ -418,7 +418,7 @@ func rndCommunity(c *vrt.Ctx) {
 // nil / one element / per layer from {0.5,1,2,4}.
 func multiplexCase(r *vrt.Rand, i int) (*cmCase, []int) {
 	dir := i%2 == 0
-	depth := 1 + (i/2)%3
+	depth := 1 + (i/2)%5
 	n := 2 + r.Intn(39)
 	var planted []int
 	layers := make([]*G, depth)
@@ -648,6 +648,10 @@ func fixedWorkload(c *vrt.Ctx) {
 	}
 	checkNegativeWeightPanics(k, r)
 	checkEmptyGraph(k, r)
+	for t := 0; t < 3; t++ {
+		checkLayerConstructors(k, r)
+	}
+	checkArgumentValidation(k, r)
 	k.done()
 }
 
